@@ -94,7 +94,10 @@ def to_model(node):
     """
     c = cname(node)
     if c == 'HplLiteral':
-        return ('lit', lit_kind(node.value), node.value)
+        v = node.value
+        if isinstance(v, str):
+            v = str.__str__(v)  # lark Tokens are str subclasses: keep a plain str
+        return ('lit', lit_kind(node.value), v)
     if c == 'HplThisMessage':
         return ('this',)
     if c == 'HplVarReference':
